@@ -372,6 +372,10 @@ pub fn unsat_leaf_schemas() -> Vec<Value> {
         json!(false),
     ];
     let mut out = vec![];
+    // a pattern whose only matches are names that properties already declares: no further key exists
+    out.push(json!({"type": "object", "properties": {"a": {"type": "null"}}, "required": ["a"], "patternProperties": {"^a$": {"type": "null"}}, "additionalProperties": false}));
+    out.push(json!({"type": "object", "properties": {"a": {"type": "null"}, "b": {"type": "boolean"}}, "patternProperties": {"^(a|b)$": {"type": "null"}}, "additionalProperties": false}));
+    out.push(json!({"type": "object", "properties": {"ab": {"type": "null"}}, "required": ["ab"], "patternProperties": {"^ab$": {}}, "additionalProperties": false, "x-guidance": {"whitespace_flexible": false}}));
     for u in leaves.iter() {
         out.push(json!({"type": "object", "properties": {"k": u, "j": {"type": "null"}}, "additionalProperties": false}));
         out.push(json!({"type": "object", "properties": {"j": {"type": "null"}, "k": u}, "required": ["j"], "additionalProperties": false, "x-guidance": {"whitespace_flexible": false}}));
